@@ -85,6 +85,9 @@ def run(ctx, report):
     # (positioning obligations of the same automaton belong to C05)
     from . import c05_doubling
     report.section("doubling automaton", c05_doubling.run, ctx, report, "1", ("O-TAB",))
+    # "each caption ends exactly when the next one begins": the list the captions are stored in
+    from . import scc_timing_list
+    report.section("caption list timing", scc_timing_list.run, ctx, report, "3")
     report.not_decided += ["that each transmitted character appears exactly once and in order",
                            "row grouping, start < end for arbitrary streams"]
 
